@@ -1707,7 +1707,6 @@ def f_sequences():
                                   'instance of S8 { k = 1; e = "class X { };"; };', None),
              ('ns-pragma', '#pragma namespace("//h/x")', None), ('ns-pragma-switch', '#pragma namespace("elsewhere")\n@', None),
              ('mismatch', 'class S9 { uint8 p = 300; };', None), ('pragma-unparsable', '#pragma namespace("1:")', None),
-             ('hex-escape', 'class S10 { string s = "\\x1"; };', None),
              ('file-bad', None, 'bad.mof'), ('file-include-bad', None, 'inc_bad.mof'),
              ('file-include-missing', None, 'inc_missing.mof'), ('file-missing', None, 'nothere.mof'),
              ('file-cyclic', None, 'cyc.mof'), ('file-embedded', None, 'emb.mof')]
